@@ -445,6 +445,32 @@ def _guard(t, cells):
     return None
 
 
+def _sum_inexact(t, cells):
+    """Frames above the batch size are profiled as a sum of batch profiles.  ColumnProfile.__add__
+    keeps only frequent values listed by both sides, counts one transition per batch boundary, combines
+    the order indicators by `0 if equal else left`, and drops the sketch of the right side when the
+    left one is empty: the frame profile is exact only when none of that matters."""
+    b = PC_batch()
+    if len(cells) <= b or t not in ORD_TYPES + ("VARCHAR",):
+        return False
+    key = (lambda v: exact(t, v)) if t in ORD_TYPES else (lambda v: v)
+    batches = [[key(v) for v in cells[i:i + b] if v is not None] for i in range(0, len(cells), b)]
+    if any(not d for d in batches):
+        return True
+    sets = [set(d) for d in batches]
+    if any(s != sets[0] for s in sets) or len(sets[0]) >= min(PC().MOST_FREQUENT_VALUE_SIZE, PC().KVM_SIZE):
+        return True
+    if t in NUM_TYPES + ("VARCHAR",):
+        o, tr = _order_spec(batches[0])
+        for d in batches[1:]:
+            o2, tr2 = _order_spec(d)
+            o = 0 if o == o2 else o
+            tr = tr + tr2 + 1
+        if (o, tr) != _order_spec([x for d in batches for x in d]):
+            return True
+    return False
+
+
 def known(case, obs):
     """Input classes of the findings reported in notes/C15.md.  A frame is in a class when the
     whole column or one of the two batches of some cut is (batches are profiled on their own)."""
@@ -453,6 +479,8 @@ def known(case, obs):
     g = _guard(t, cells)
     if g is not None:
         return g
+    if _sum_inexact(t, cells):
+        return "F-C15-11"
     if t in ORD_TYPES and len(cells) <= 200:
         for k in range(1, len(cells)):
             for part in (cells[:k], cells[k:]):
@@ -468,6 +496,7 @@ KNOWN_WITNESSES = {
     "F-C15-8": {"type": "INTEGER", "values": [-9223372036854775808, 1, 2], "cut": None},
     "F-C15-9": {"type": "VARCHAR", "values": ["x" * 64 + "a", "x" * 64 + "b"], "cut": None},
     "F-C15-10": {"type": "DOUBLE", "values": [1500000, ["nan"]], "cut": None},
+    "F-C15-11": {"type": "INTEGER", "values": [3, None, 0, -4, 3, 9, 1], "cut": None, "rep": 3572},
 }
 
 
@@ -508,8 +537,10 @@ def _optz(x):
     return L.opt(None if x is None else L.Z(x))
 
 
-def _profile_term(p, val):
-    """p: canonical profile dict -> Coq [profile V N]; val renders a listed value (None -> impossible)."""
+def _profile_term(p, val, edges=None):
+    """p: canonical profile dict -> Coq [profile V N]; val renders a listed value (None -> impossible).
+    edges: bit patterns of numpy's left edges; an observed edge is written as the number of the numpy
+    edge with the same 64 bits (1000 + position if there is none, which can match nothing)."""
     bad = p["mfv_lens"][0] != p["mfv_lens"][1] or any(not isinstance(x, int) for x in (p["count"], p["missing"], p["transitions"]))
     for f in ("minimum", "maximum", "order"):
         if p[f] is not None and not isinstance(p[f], int):
@@ -523,14 +554,19 @@ def _profile_term(p, val):
         mfv.append(L.pair(r, L.Z(c)))
     if bad:
         return None
-    hist = [L.pair(L.N(e), L.Z(c)) for e, c in p["histogram"]]
+    hist = []
+    for j, (e, c) in enumerate(p["histogram"]):
+        if not isinstance(c, int):
+            return None
+        idx = [i for i, b in enumerate(edges or []) if b == e]
+        hist.append(L.pair(L.N(idx[0] if idx else 1000 + j), L.Z(c)))
     return "(mkp %s %s %s %s %s %s %s %s %s)" % (
         L.Z(p["count"]), L.Z(p["missing"]), _optz(p["maximum"]), _optz(p["minimum"]), _optz(p["order"]), L.Z(p["transitions"]),
         L.lst(mfv), L.lst(hist), L.lst(L.N(h) for h in p["kmv"]))
 
 
-def _obs_term(case, obs, val, vtype):
-    w = _profile_term(obs["whole"], val)
+def _obs_term(case, obs, val, vtype, edges=None):
+    w = _profile_term(obs["whole"], val, edges)
     if w is None:
         return None
     cut = None
@@ -548,7 +584,7 @@ def _obs_term(case, obs, val, vtype):
 
 
 FALSE_CASE = {
-    "ord": "(true, (1)%Z, ([] : list (option Z)), 1%nat, [], [], mko (empty_profile (1)%Z (0)%Z) None [] (0)%Z)",
+    "ord": "(true, (1)%Z, ([] : list (option Z)), 1%nat, ([] : list (Z * N)), ([] : list (N * Z)), mko (empty_profile (1)%Z (0)%Z) None [] (0)%Z)",
     "text": "(([] : list (option (list N))), 1%nat, [], mko (empty_profile (1)%Z (0)%Z) None [] (0)%Z)",
     "bool": "(([] : list (option bool)), 1%nat, mko (empty_profile (1)%Z (0)%Z) None [] (0)%Z)",
     "plain": "(false, ([] : list ucell), 1%nat, mko (empty_profile (1)%Z (0)%Z) None [] (0)%Z)",
@@ -575,28 +611,25 @@ def to_coq(case, obs):
     if st == "ord":
         sc = scale_of(t)
         col = [None if v is None else exact(t, v) for v in vals]
-        o = _obs_term(case, obs, lambda s: (lambda z: None if z is None else L.Z(z))(_render_to_exact(t, s)), "Z")
+        edges = None
+        if rep == 1 and any(v is not None for v in vals):
+            edges = [e for e, _ in _np_hist(t, [v for v in vals if v is not None])]
+        o = _obs_term(case, obs, lambda s: (lambda z: None if z is None else L.Z(z))(_render_to_exact(t, s)), "Z", edges)
         if o is None:
             return (st, FALSE_CASE[st])
         hashes = {}
         for v in vals:
             if v is not None:
                 hashes[exact(t, v)] = _hash32(_seen_value(t, v))
-        cells = column(case)
-        samples = [cells] if rep != 1 else [cells] + ([cells[:case["cut"]], cells[case["cut"]:]] if case.get("cut") else [])
-        hists = []
-        seen = set()
+        hist = []
         if rep == 1:
-            for part in samples:
-                data = [v for v in part if v is not None]
-                key = tuple(exact(t, v) for v in data)
-                if data and key not in seen:
-                    seen.add(key)
-                    hists.append(L.pair(L.lst(L.Z(z) for z in key), L.lst(L.pair(L.N(e), L.Z(c)) for e, c in _np_hist(t, data))))
+            data = [v for v in vals if v is not None]
+            if data:
+                hist = _np_hist(t, data)
         term = "(%s, %s, (%s : list (option Z)), %s, %s, %s, %s)" % (
             L.boolean(t in NUM_TYPES), L.Z(sc), L.lst(L.opt(None if z is None else L.Z(z)) for z in col), L.nat(rep),
             "(%s : list (Z * N))" % L.lst(L.pair(L.Z(k), L.N(h)) for k, h in sorted(hashes.items())),
-            "(%s : list (list Z * list (N * Z)))" % L.lst(hists), o)
+            "(%s : list (N * Z))" % L.lst(L.pair(L.N(i), L.Z(c)) for i, (e, c) in enumerate(hist)), o)
         return (st, term)
     if st == "text":
         o = _obs_term(case, obs, lambda s: L.text(s) if isinstance(s, str) else None, "(list N)")
@@ -759,11 +792,15 @@ def corpus():
     yield {"type": "UNTYPED", "values": [1, ["nan"], None, "a"], "cut": 2}
     # frames above the 25000-row batch size (from_dataframe adds the batch profiles itself)
     b = PC_batch()
-    if b <= 30000:
-        r = b // 7 + 1
-        yield {"type": "INTEGER", "values": [3, None, 0, -4, 3, 9, 1], "cut": None, "rep": r}
-        yield {"type": "VARCHAR", "values": ["b", None, "\u00e9", "a", "b", "zz", ""], "cut": None, "rep": r}
-        yield {"type": "UNTYPED", "values": [1, None, "a", None, 2, 3, 4], "cut": None, "rep": r}
+    if b <= 30000 and b % 8 == 0:
+        r = b // 8 + 2          # the second batch holds two whole periods, so both batches list the same values
+        yield {"type": "INTEGER", "values": [3, None, 0, -4, 3, 9, 1, 0], "cut": None, "rep": r}
+        yield {"type": "DOUBLE", "values": [500000, None, 0, -1500000, 500000, 9250000, 1000000, 0], "cut": None, "rep": r}
+        yield {"type": "VARCHAR", "values": ["b", None, "\u00e9", "a", "b", "zz", "", "a"], "cut": None, "rep": r}
+        yield {"type": "TIMESTAMP", "values": [1, None, -1, 5 * MICRO, 1, 0, 7, 7], "cut": None, "rep": r}
+        yield {"type": "BOOLEAN", "values": [True, None, False, True, True, None, False, False], "cut": None, "rep": r}
+        yield {"type": "UNTYPED", "values": [1, None, "a", None, 2, 3, ["nan"], 4], "cut": None, "rep": r}
+        yield {"type": "ARRAY", "values": [[1], None, [], None, [2], [3], [4], [5]], "cut": None, "rep": r}
     for w in KNOWN_WITNESSES.values():
         yield w
 
@@ -773,7 +810,7 @@ def exhaustive(tier):
     representative of each profiler; each with every cut (quads) and designated cut = every k in turn."""
     import itertools
 
-    L_ = 4 if tier == "quick" else 5
+    L_ = 3 if tier == "quick" else 5
     alpha = {
         "INTEGER": [None, 0, -3, 2], "DOUBLE": [None, 0, -500000, 1500000], "VARCHAR": [None, "", "a", "\u00e9"],
         "BOOLEAN": [None, True, False], "DATE": [None, 0, -1], "UNTYPED": [None, ["nan"], 1], "ARRAY": [None, [], [1]],
